@@ -460,6 +460,7 @@ class bin_array(object):
                 for r in self.ranges.range_l:
                     if r[0] != r[1]:
                         b = ret.add_bin(CoverpointBinArrayModel(name, r[0], r[1]))
+                        b.name_idx_base = idx
                         b.srcinfo_decl = self.srcinfo_decl
                         idx += ((r[1] - r[0]) + 1)
                     elif r[0] == r[1]:
